@@ -451,3 +451,5 @@ def run(model, rep):
     # h64 / h64big / bcrypt64 are LazyBase64Engine instances: the tables exist before the engine reports itself initialised (rule shared with C19)
     from . import c19
     c19.rule_a(model, shared.Renamed(rep, {"C19.a": "C12.i-lazy-engine-init"}, "C12.x-", only=lambda s: "LazyBase64Engine" in s))
+    # libpass' PHC text codec is a third copy of the unpadded-base64 helper: it must not skip foreign characters either (rule shared with C08.g)
+    c08.rule_g(model, shared.Renamed(rep, {"C08.g": "C12.j-lenient-decoders"}, "C12.x-", only=lambda s: s.startswith("libpass")))
